@@ -3,25 +3,37 @@
 configured windows allow."  Quantifier: all pairs of 16-bit values.
 (src/utils.rs seq_nr_offset, src/seq_nr.rs SeqNr, src/constants.rs WRAP_TOLERANCE)
 
+  The tolerance: W = 32767 = M/2 - 1 (hard-wired in the cfgs): W must be at least the largest window in packets
+  the configuration allows, and 32767 is the largest tolerance 16-bit arithmetic admits (the lemmas need 2W < M).
+  The former WRAP_TOLERANCE = 1024 was the defect D8 (fixed in /repo); it is kept as documentation (smallest
+  misordered pair) and as a second table for seq_nr_offset(a, b, 1024) as a pure function.
+
   1. TLC on MCSeq (spec/SeqArith.tla: Offset = transcription of seq_nr_offset, Dist = ideal signed modular
      distance):
-       MCSeq_s64, MCSeq_s256   scaled (M, W) = (64, 4), (256, 16): ALL pairs, every lemma a named invariant
-                               (OffsetAgrees, ClosedForm, DependsOnDLt, Antisym, ZeroIffEqual, OrdAgrees,
-                               OrdIsPlainBeyond, OrdInvertedAcrossWrap, AddSubWrap, Transitive, NegativeWitness);
-       MCSeq_quick             REAL M = 65536, W = 1024: a boundary-dense subset of ~7k a's against every b
-                               within the tolerance + a band outside + far/antipodal b's, all lemmas; emits the
-                               complete (d, lt) table (131072 entries) and the replay cases;
-       MCSeq (thorough only)   the same for ALL 65536 a's (OffsetAgrees + ClosedForm + DependsOnDLt in one pass).
-     The NEGATIVE fact (beyond the tolerance the implementation's order is the plain integer order, wrong across
-     the wrap) is an invariant too and its smallest witness is put into the evidence.
-  2. spec -> impl: unit_seq `table` compares seq_nr_offset(a, b, 1024) and SeqNr (Sub, Ord, PartialOrd, the
-     comparison operators, Eq, + / - / += / -= u16) with the table on ALL 2^32 pairs (thorough) or on ~7.5k
-     boundary-dense + seeded a's against all b (quick): C09.TableEqual, C09.OrdConsistent, C09.WrapAddSub;
-     unit_seq `replay` executes the TLC-generated boundary cases (every tolerance of the record mode).
+       MCSeq_h64, MCSeq_h256   scaled, tolerance M/2 - 1: (M, W) = (64, 31), (256, 127): ALL pairs, every lemma a
+                               named invariant (OffsetAgrees, ClosedForm, DependsOnDLt, Antisym, ZeroIffEqual,
+                               OrdAgrees, OrdIsPlainBeyond, OrdInvertedAcrossWrap, OrdTotalAtMaxTolerance,
+                               AddSubWrap, WindowOrder, NegativeWitness);
+       MCSeq_s64, MCSeq_s256   scaled, SMALL tolerance (64, 4), (256, 16): the same; misordered pairs exist (the
+                               class of D8), NegativeWitness prints the smallest;
+       MCSeq_quick             REAL M = 65536, W = 32767: a boundary-dense subset of ~7k a's against the b's at a
+                               boundary-dense set of signed distances (0..16, around 1024, around the antipode,
+                               powers of two +-1, multiples of 1024 +-1) + far b's; emits the complete (d, lt)
+                               tables (W and 1024; 131072 entries each) and the replay cases;
+       MCSeq (thorough only)   the same for ALL 65536 a's, wider clusters, DependsOnDLt on every pair.
+     NegativeWitness: with W = M/2 - 1 the only distance beyond the tolerance is the antipode |Dist| = 32768
+     (ambiguous; tie broken by integer order, antisymmetric) and no pair with an unambiguous order is misordered;
+     for the former tolerance 1024 the smallest misordered pair (0, 64511) is printed as documentation.
+  2. spec -> impl: unit_seq `table` compares seq_nr_offset(a, b, 32767), seq_nr_offset(a, b, 1024) and SeqNr (Sub,
+     Ord, PartialOrd, the comparison operators, Eq, + / - / += / -= u16; bound to the W = 32767 table) with the
+     tables on ALL 2^32 pairs (thorough) or on ~7.5k boundary-dense + seeded a's against all b (quick):
+     C09.TableEqual, C09.OrdConsistent, C09.WrapAddSub; unit_seq `replay` executes the TLC-generated boundary
+     cases (every tolerance of the record mode, and the tolerance constant itself).
   3. impl -> spec: unit_seq `record` (seeded random + boundary pairs, tolerances {0,1,2,1023,1024,1025,32767,
      32768,65535}, SeqNr pairs, and a walking SeqNr with a ghost true distance); SeqTrace validates every line:
      C09.OffsetAgreesImpl, C09.DistAgrees, C09.OrdConsistent, C09.GhostAgrees, C09.WrapAddSub, C09.ToleranceIsW.
-  Extra (never deciding): Apalache discharges all lemmas of (1) symbolically for all 2^32 pairs (SeqArithApa).
+  Extra (never deciding): Apalache discharges all lemmas of (1), for both tolerances, symbolically for all 2^32
+  pairs (SeqArithApa) and refutes "the order is always modular" for the former tolerance 1024.
 
   The metamorphic trace-shift part of C09 is `metamorphic_part` (filled in elsewhere).
 """
@@ -36,10 +48,11 @@ SCRATCH = os.path.join(core.OUT, "c09")
 UNIT = os.environ.get("VERIF_UNIT_DIR") or os.path.join(core.ROOT, "unit")
 BIN = os.path.join(UNIT, "target", "debug", "unit_seq")
 
-M, W = 65536, 1024
+M, W = 65536, 32767
+OLD_W = 1024      # the former WRAP_TOLERANCE (defect D8): documentation + second table only
 TABLE_RULES = ["C09.TableEqual", "C09.OrdConsistent", "C09.WrapAddSub", "C09.NoPanic"]
 OP_RULE = {"offset": "C09.TableEqual", "sub": "C09.OrdConsistent", "cmp": "C09.OrdConsistent",
-           "add": "C09.WrapAddSub", "subk": "C09.WrapAddSub"}
+           "add": "C09.WrapAddSub", "subk": "C09.WrapAddSub", "tolerance": "C09.ToleranceIsW"}
 REQUIRED = ["C09.TableEqual", "C09.OrdConsistent", "C09.WrapAddSub", "C09.OffsetAgreesImpl", "C09.DistAgrees",
             "C09.GhostAgrees", "C09.ToleranceIsW"]
 
@@ -90,8 +103,8 @@ def _tlc_model_nocov(cfg, env_extra, timeout, workers=None, xmx="8g"):
     return res
 
 
-def _negative(out):
-    m = re.search(r'<<"NEGATIVE", "(.*)">>', out)
+def _negative(out, tag="NEGATIVE"):
+    m = re.search(r'<<"%s", "(.*)">>' % tag, out)
     if not m:
         return None
     return json.loads(json.loads('"' + m.group(1) + '"'))
@@ -103,7 +116,7 @@ def _apalache():
     shutil.rmtree(od, ignore_errors=True)
     os.makedirs(od, exist_ok=True)
     res = {}
-    for inv, key in (("Lemmas", "lemmas_all_pairs"), ("OrdAlwaysModular", "false_lemma_sanity")):
+    for inv, key in (("Lemmas", "lemmas_all_pairs"), ("OrdAlwaysModularOld", "false_lemma_sanity_old_tolerance_1024")):
         t0 = time.time()
         try:
             p = core.sh(["timeout", "120", "apalache-mc", "check", f"--out-dir={od}", "--length=0", "--init=Init",
@@ -198,24 +211,32 @@ def run(tier, seed):
     f_apa = pool.submit(_apalache)
 
     # ---- 1. models
-    negatives = []
-    for cfg in ("MCSeq_s64", "MCSeq_s256"):
-        res = core.tlc_model("MCSeq", cfg, timeout=120, workers=4)
+    scaled = ("MCSeq_h64", "MCSeq_h256", "MCSeq_s64", "MCSeq_s256")
+    with ThreadPoolExecutor(max_workers=4) as ex:
+        sres = list(ex.map(lambda cfg: core.tlc_model("MCSeq", cfg, timeout=180, workers=4), scaled))
+    negatives = {}
+    for cfg, res in zip(scaled, sres):
         if res.get("never"):
             raise core.ToolError(f"{cfg}: actions never taken: {res['never']}")
         r.add_model(res)
-        negatives.append(_negative(res["out"]))
+        negatives[cfg] = _negative(res["out"])
         log(f"[C09] {cfg}: {res.get('states')} states, {res['wall_s']:.1f}s")
     res = _tlc_model_nocov("MCSeq_quick", {"C09_TABLE": table_path, "C09_CASES": cases_path}, timeout=240)
     r.add_model(res)
-    negatives.append(_negative(res["out"]))
+    negatives["real"] = _negative(res["out"])
+    negatives["real_old_tolerance"] = _negative(res["out"], "NEGATIVE_OLD")
     log(f"[C09] MCSeq_quick: {res.get('states')} states, {res['wall_s']:.1f}s")
     if not (os.path.exists(table_path) and os.path.exists(cases_path)) or '"EMITTED"' not in res["out"]:
         raise core.ToolError("MCSeq_quick did not emit the table / the cases")
-    if any(n is None for n in negatives):
+    if any(n is None for n in negatives.values()):
         raise core.ToolError("a model did not print its NEGATIVE witness")
-    a_checked = res.get("states", 0) - 256
-    pairs_tlc = a_checked * (2 * (W + 8) + 1)
+
+    def tlc_pairs(res):
+        m = re.search(r'<<"PAIRS_PER_A", (\d+)>>', res["out"])
+        per_a = int(m.group(1)) if m else 0
+        n_a = res.get("states", 0) - 256
+        return n_a, per_a, n_a * per_a
+    a_checked, per_a, pairs_tlc = tlc_pairs(res)
 
     # ---- 3. impl -> spec (started first; also makes sure the binary is built)
     v = f_trace.result()
@@ -243,7 +264,7 @@ def run(tier, seed):
                               "ctx": f"{c['op']}(a={c['a']},b={c['b']},w={c['w']}) impl={a['r']} spec={c['exp']}"},
                              c, answers_path))
     log(f"[C09] replay: {len(cases)} cases, {len(bad)} disagree")
-    want = {("offset", 0, M - 1, W): None, ("offset", 0, M - W - 1, W): None, ("cmp", 0, M - W - 1, W): None}
+    want = {("offset", 0, M - 1, W): None, ("offset", 0, M - OLD_W - 1, W): None, ("cmp", 0, M // 2, W): None}
     for c in cases:
         k = (c["op"], c["a"], c["b"], c["w"])
         if k in want and want[k] is None:
@@ -258,7 +279,8 @@ def run(tier, seed):
     for rule in TABLE_RULES[:3]:
         r.cov[rule] = r.cov.get(rule, 0) + t["pairs"]
     for x in t["first"]:
-        case = {"op": "offset" if x["rule"] == "C09.TableEqual" else "sub", "a": x["a"], "b": x["b"], "w": W, "exp": x["spec"]}
+        case = {"op": "offset" if x["rule"] == "C09.TableEqual" else "sub", "a": x["a"], "b": x["b"],
+                "w": OLD_W if "1024" in x["what"] else W, "exp": x["spec"]}
         if x["rule"] == "C09.WrapAddSub":
             case["op"] = "add" if "+" in x["what"] else "subk"
         if x["rule"] == "C09.OrdConsistent" and "cmp" in x["what"]:
@@ -277,8 +299,7 @@ def run(tier, seed):
     if thorough:
         res = _tlc_model_nocov("MCSeq", {}, timeout=900)
         r.add_model(res)
-        a_checked = res.get("states", 0) - 256
-        pairs_tlc = a_checked * (2 * (W + 8) + 1)
+        a_checked, per_a, pairs_tlc = tlc_pairs(res)
         log(f"[C09] MCSeq (all a): {res.get('states')} states, {res['wall_s']:.1f}s")
 
     apa = f_apa.result()
@@ -288,26 +309,35 @@ def run(tier, seed):
 
     r.exhaustive = {
         "spec_to_impl": (f"all {t['pairs']} pairs of ({t['a_values']} a's x 65536 b's) compared with the specification's "
-                         f"table; {t['cells_hit']} of 131071 (d, lt) classes hit" + ("; this is every pair of 16-bit values" if t["pairs"] == M * M else "")),
-        "tlc_real_constants": f"{a_checked} a's x >= {2 * (W + 8) + 1} b's (all within tolerance +-8 outside, far, antipodal): {pairs_tlc} pairs",
-        "tlc_scaled": "M=64,W=4 and M=256,W=16: all pairs, all triples within a window",
+                         f"tables (W = {W} for seq_nr_offset and SeqNr; extra tolerances {t.get('extra_W')} for seq_nr_offset); "
+                         f"{t['cells_hit']} of 131071 (d, lt) classes hit" + ("; this is every pair of 16-bit values" if t["pairs"] == M * M else "")),
+        "tlc_real_constants": (f"{a_checked} a's x {per_a} b's (signed distances 0..Band, around 1024, around the antipode, "
+                               f"powers of two +-1, multiples of 1024 +-1; far b's): {pairs_tlc} pairs"),
+        "tlc_scaled": "M=64 (W=31, 4) and M=256 (W=127, 16): all pairs, all pairs of window positions",
     }
+    r.notes["tolerance"] = (f"W = {W} = M/2 - 1: W must be at least the largest window in packets the configuration allows; "
+                            "32767 is the largest tolerance 16-bit arithmetic admits (2W < M).  The former value 1024 was the "
+                            "defect D8 (default receive buffer alone: 1985 packets).")
     r.notes["negative_fact"] = {
-        "statement": ("For |Dist(a,b)| > W Offset(a,b) is the PLAIN integer difference a - b, so the implementation's order is the "
-                      "integer order of the two 16-bit values; when the wrap lies between them (|a-b| > M/2) that is the modular "
-                      "distance off by +-M, i.e. the wrong order.  Closed form (checked as ClosedForm): "
-                      "Offset(a,b) = IF |Dist(a,b)| <= W THEN Dist(a,b) ELSE a - b."),
-        "smallest_witness": negatives[2], "scaled_witnesses": negatives[:2],
-        "consequence": "windows of more than W = 1024 sequence numbers break when they straddle the wrap (known defect D8)",
+        "statement": ("Closed form (checked as ClosedForm): Offset(a,b) = IF |Dist(a,b)| <= W THEN Dist(a,b) ELSE a - b: beyond the "
+                      "tolerance Offset is the PLAIN integer difference, i.e. the implementation's order is the integer order of the "
+                      "two 16-bit values, which is wrong when the wrap lies between them.  With W = 32767 the only distance beyond "
+                      "the tolerance is the antipode |Dist| = 32768, whose modular order is ambiguous; Offset breaks the tie by the "
+                      "integer order and stays antisymmetric; no pair with an unambiguous modular order is misordered "
+                      "(OrdTotalAtMaxTolerance; Apalache: OrdAlwaysModular for all pairs)."),
+        "witness_at_the_only_distance_beyond_tolerance": negatives["real"],
+        "former_tolerance_1024_smallest_misordered_pair": negatives["real_old_tolerance"],
+        "scaled_small_tolerance_witnesses": [negatives["MCSeq_s64"], negatives["MCSeq_s256"]],
+        "consequence_of_the_former_tolerance": "windows of more than 1024 sequence numbers broke when they straddled the wrap (defect D8, fixed)",
     }
     r.notes["apalache"] = apa
-    r.notes["table"] = {k: t[k] for k in ("pairs", "a_values", "cells_hit", "wrapped_pairs", "crate_WRAP_TOLERANCE", "wall_s")}
+    r.notes["table"] = {k: t[k] for k in ("pairs", "a_values", "cells_hit", "wrapped_pairs", "table_W", "extra_W", "crate_WRAP_TOLERANCE", "wall_s")}
 
     metamorphic_part(r, tier, seed)      # <-- HOOK (see above)
 
     return r.finish(
         rule_text=("spec -> impl: seq_nr_offset/SeqNr vs the TLC-emitted table Offset(d, lt) on every (a, b) "
-                   "(distinct = (d, lt) classes hit + boundary cases over 12 tolerances); impl -> spec: seeded random/boundary "
+                   "(distinct = (d, lt) classes hit + boundary cases over 13 tolerances); impl -> spec: seeded random/boundary "
                    "calls and a walking SeqNr with a ghost true distance, validated line by line by SeqTrace"),
         required_cov=REQUIRED)
 
